@@ -64,7 +64,9 @@ func init() {
 					inSX[i] = L(Str(names[i]), Num(vals[i]))
 				}
 				m := Meta{Case: c, Stage: "ranking", Input: map[string]interface{}{"ids": names, "values": vals}, Key: "rk" + sxString(inSX), Trivial: len(names) < 2, GoOut: rankingJSON(rk)}
-				o.Corr(m, L(A("ranking"), inSX), okSX(rankingSX(rk)))
+				// no correspondence line here on purpose: the order/links of the utility ranking are C04's
+				// tie; C01 only needs well-formedness, decided by the spec on Go's output
+				_ = inSX
 				o.Spec(m, L(A("check-c01"), Strs(names), linksSX(*rk)))
 				o.count("ctor:ranking")
 			case 1: // sequential
